@@ -513,6 +513,33 @@ namespace c11
     }
     return false;
   }
+  /// topology="parent" mesh part that lists an entity (dim >= 1) of the first root mesh with a vertex that is not in the part's
+  /// vertex mapping (deduct_topology marks such vertices with an out-of-range value and then computes on them)
+  inline bool cls_parent_unmapped(const Sketch& sk)
+  {
+    std::map<unsigned long long, std::vector<std::vector<unsigned long long>>> topo; bool have = false;
+    for(auto& l : sk.lines) if(!l.markup && !l.comment && sk.in(l, "Mesh", "Topology") && l.ctx.size() == 3)
+    {
+      unsigned long long d = 0; auto it = sk.open_of(l).attrs.find("dim"); if(it == sk.open_of(l).attrs.end() || !parse_index(it->second, d)) continue;
+      std::vector<unsigned long long> tp; for(auto& tk : split_ws(l.txt)) { unsigned long long v = 0; parse_index(tk, v); tp.push_back(v); }
+      topo[d].push_back(tp); have = true;
+    }
+    if(!have) return false;
+    for(size_t i = 0; i < sk.lines.size(); ++i)
+    {
+      const auto& l = sk.lines[i]; if(!(l.markup && !l.term && l.name == "MeshPart" && l.ctx.size() == 1)) continue;
+      auto tt = l.attrs.find("topology"); if(tt == l.attrs.end() || tt->second != "parent") continue;
+      std::set<unsigned long long> verts; std::vector<std::pair<unsigned long long, unsigned long long>> ents;
+      for(size_t k = i + 1; k < sk.lines.size() && sk.lines[k].ctx.size() >= 2; ++k)
+      {
+        const auto& m = sk.lines[k]; if(m.markup || m.comment || !sk.in(m, "MeshPart", "Mapping")) continue;
+        unsigned long long d = 0, v = 0; auto it = sk.open_of(m).attrs.find("dim"); if(it == sk.open_of(m).attrs.end() || !parse_index(it->second, d) || !parse_index(m.txt, v)) continue;
+        if(d == 0) verts.insert(v); else ents.emplace_back(d, v);
+      }
+      for(auto& e : ents) { auto it = topo.find(e.first); if(it == topo.end() || e.second >= it->second.size()) continue; for(auto v : it->second[(size_t)e.second]) if(!verts.count(v)) return true; }
+    }
+    return false;
+  }
   /// Partition declaring more ranks than it has Patch children
   inline bool cls_partition_missing_patch(const Sketch& sk)
   {
